@@ -50,19 +50,17 @@ def headsLen : List (Bool × Bytes) → Nat
   | [] => 0
   | (dyn, e) :: r => (if dyn then 32 else e.length) + headsLen r
 
+/-- heads and tails of the remaining items; `hl` = total length of all heads, `tailsBefore` = tails placed so far -/
+def assembleGo (hl : Nat) : List (Bool × Bytes) → Nat → Bytes × Bytes
+  | [], _ => ([], [])
+  | (dyn, e) :: r, tailsBefore =>
+    if dyn then
+      ((encUint (hl + tailsBefore) ++ (assembleGo hl r (tailsBefore + e.length)).1), e ++ (assembleGo hl r (tailsBefore + e.length)).2)
+    else
+      (e ++ (assembleGo hl r tailsBefore).1, (assembleGo hl r tailsBefore).2)
+
 def assemble (items : List (Bool × Bytes)) : Bytes :=
-  let hl := headsLen items
-  let rec go : List (Bool × Bytes) → Nat → Bytes × Bytes
-    | [], _ => ([], [])
-    | (dyn, e) :: r, tailsBefore =>
-      if dyn then
-        let (h, t) := go r (tailsBefore + e.length)
-        (encUint (hl + tailsBefore) ++ h, e ++ t)
-      else
-        let (h, t) := go r tailsBefore
-        (e ++ h, t)
-  let (h, t) := go items 0
-  h ++ t
+  (assembleGo (headsLen items) items 0).1 ++ (assembleGo (headsLen items) items 0).2
 
 mutual
   /-- enc(X) -/
